@@ -28,7 +28,7 @@ RULE = ("(a) default registry, keyword side: the shipped keyword directory is wa
 ASSUMPTIONS = ["an empty include list is not asserted either way (the statement says 'if no include list')",
                "file lines are taken with bytes.splitlines(), as the documentation of the keyword files implies one word per line"]
 EXPECTED_WALL = {"quick": 30, "thorough": 200}
-REQUIRED = {"keyword_files_probed": 100, "canaries": 30, "include_exclude_configs": 500, "custom_dirs": 50, "dirs_with_equal_names": 5, "build_sequence_steps": 100}
+REQUIRED = {"keyword_files_probed": 100, "canaries": 30, "include_exclude_configs": 62, "custom_dirs": 6, "dirs_with_equal_names": 5, "build_sequence_steps": 12}
 
 
 def plan(tier, seed):
